@@ -743,10 +743,14 @@ ExecStmt(M, s) ==
          \* device copy ("x@dev") and the body runs against it; copyin/copy start as
          \* the host values, copyout starts undefined; at the end copy/copyout
          \* arrays are copied back.  An undefined device element copied over a
-         \* defined host element is logged (clause NoPoisonToHost).  Scalars and
-         \* arrays in no clause stay on the host.
+         \* defined host element is logged (clause NoPoisonToHost).  Scalars stay on
+         \* the host; an array in no clause has an undefined device copy that is never
+         \* copied back.
          LET cin == SeqSet(s.copyin)  cout == SeqSet(s.copyout)  cboth == SeqSet(s.copy)
-             names == {nm \in cin \cup cout \cup cboth : nm \in DOMAIN M.st /\ M.st[nm].ex # <<>>}
+             \* every array of the store gets a device cell: an array in no clause has no
+             \* data movement at all, so the device sees an undefined copy and what the
+             \* region writes to it never reaches the host ("exactly the movements generated")
+             names == {nm \in DOMAIN M.st : M.st[nm].ex # <<>> }
              dv(nm) == nm \o "@dev"
              st1 == [x \in DOMAIN M.st \cup {dv(nm) : nm \in names} |->
                        IF x \in DOMAIN M.st THEN M.st[x]
